@@ -58,6 +58,18 @@ PROPS = {
         "assumptions": [A_ND, A_VERUS, A_EXTRACT, A_ENUM, "unsafe code (cast_view_mut, Option<T>::remove_nan_mut pointer casts, NotNone::deref's unreachable_unchecked) is outside Verus; covered only by the bounded memory-level enumeration"],
         "not_decided": ["soundness of the unsafe view builders beyond the enumerated bound"],
     },
+    "C13": {
+        "level": "proof",
+        "level_text": "Verus discharges on the extracted bodies of src/histogram/bins.rs, for every element type with a lawful order and every edge collection: Edges::from(Vec) yields strictly increasing edges holding exactly the distinct input values (sort_unstable + dedup under their real semantics, with a proved lemma about dedup on sorted input); indices_of / Bins::index_of return bin i exactly when edge_i <= v < edge_{i+1} and None exactly when no such bin exists; Bins::len == max(#edges-1,0); Bins::index returns the i-th edge pair. Grid accessors, Bins::range_of and Edges::from(Array1) use iterator chains / tuple-pattern closures that Verus rejects: bounded enumeration",
+        "level_note": "trusted: A-STD (binary_search, sort_unstable, dedup as 'remove consecutive repeats', Vec basics), A-ORD plus 'PartialEq agrees with Ord and structural equality' for Edges::from, closure header annotation R9 in Bins::index_of; bounded: enum:bins - all edge collections of length <= 4 (quick) / 5 (thorough), all probes, 2-axis grids with <= 3 edges per axis",
+        "technique": "Verus contracts + representation invariant (strictly sorted edges) on extracted Edges/Bins methods; lemmas relating binary-search outcomes to bin membership",
+        "design_ref": "DESIGN.md 4 (C13)",
+        "verus": [("bins", "N")],
+        "enum": [{"name": "bins"}],
+        "assumptions": [A_ORD, A_STD, A_VERUS, A_EXTRACT, A_ENUM],
+        "assumed_repo_fns": ["src/histogram/bins.rs Bins::range_of, Edges::from(Array1), Edges::as_array_view/iter; src/histogram/grid.rs Grid::{shape,index_of,index,ndim,projections}: outside Verus (closures with tuple patterns, iterator adaptor chains) - bounded enumeration only"],
+        "not_decided": [],
+    },
     "C15": {
         "level": "proof",
         "level_text": "Verus discharges, for every array length, content, pivot position and element type with a lawful order, the full postcondition of the real partition_mut body (rank = number of strictly smaller elements, pivot at k, strict/non-strict sides, permutation) and absence of panics/overflow; a bounded enumeration on the real crate doubles as witness search",
@@ -75,7 +87,7 @@ PROPS = {
         "level_note": "trusted: A-ND, A-RNG (gen_range panics on an empty range), A-ORD, Verus+Z3, extractor; debug_assert! is treated as a no-op in mode P (release semantics); bounded: Grid::index arity/zip and IndexMap glue by enumeration (<= 2 axes, lengths <= 4)",
         "technique": "Verus must-panic (`ensures false`) and no-panic contracts on extracted selection/partition/bin-index bodies",
         "design_ref": "DESIGN.md 2.3, 4 (C16)",
-        "verus": [("sort", "N"), ("sort", "P")],
+        "verus": [("sort", "N"), ("sort", "P"), ("bins", "N"), ("bins", "P")],
         "enum": [{"name": "oob"}],
         "assumptions": [A_ND, A_RNG, A_ORD, A_VERUS, A_EXTRACT, A_ENUM,
                         "must-panic mode: ndarray's Index/swap/slice_axis_mut and rand's gen_range return only for in-range arguments; debug_assert! is a no-op (release semantics)"],
